@@ -42,7 +42,7 @@ type c11Scenario struct {
 var c11Kinds = []string{
 	"claimCreate", "claimCreate", "claimLaunch", "claimDelete", "claimGone", "claimRelabel",
 	"nodeCreate", "nodeCreate", "nodeLabel", "nodeCapacity", "nodeTaint", "nodeDelete", "nodeGone", "nodeProviderID",
-	"podCreate", "podCreate", "podCreate", "podBind", "podBind", "podRebind", "podComplete", "podDelete", "podAnnotate", "daemonPod",
+	"podCreate", "podCreate", "podCreate", "podBind", "podBind", "podRebind", "podRecreate", "podComplete", "podDelete", "podAnnotate", "daemonPod",
 	"mark", "unmark",
 	"deliver", "deliver", "deliver", "deliver", "deliver", "deliver", "quiesce",
 }
@@ -273,6 +273,15 @@ func (x *c11World) step(op c11Op) {
 				sim.Bound(np, nodeName(op.A))
 				x.apply(np, "Pod")
 				x.c.Class("pod_recreated_on_other_node")
+			}
+		}
+	case "podRecreate":
+		// a bound pod is deleted and re-created under the same name; the new pod is still pending
+		if p := x.getPod(op.B); p != nil && p.Spec.NodeName != "" {
+			w.FinishPod(client.ObjectKeyFromObject(p))
+			if x.getPod(op.B) == nil {
+				x.apply(c11Pod(op.B, op), "Pod")
+				x.c.Class("pod_recreated_unbound")
 			}
 		}
 	case "podComplete":
@@ -508,7 +517,7 @@ func execC11(s *c11Scenario, c *ev.Ctx) {
 
 var propC11 = ev.Prop[c11Scenario]{
 	ID: "C11", Test: "TestC11",
-	Rule: "rapid draws 8-70 operations over <=4 NodeClaims, <=4 Nodes, <=8 Pods: create / launch late / change provider id / relabel / delete / remove NodeClaims; create (unmanaged, unregistered, registered, initialized) / relabel / resize / taint / late provider id / delete / remove Nodes; create / bind / re-create under the same name on another node / complete / terminate / remove / annotate (deletion cost) pods incl. daemon pods, host ports, anti-affinity; explicit MarkForDeletion / Unmark; each mutation enqueues a reconcile key and 'deliver' ops deliver ANY pending key (out of order, duplicates kept) to the real informer controllers; at 'quiesce' ops and at the end every key is delivered until no requeue; " +
+	Rule: "rapid draws 8-70 operations over <=4 NodeClaims, <=4 Nodes, <=8 Pods: create / launch late / change provider id / relabel / delete / remove NodeClaims; create (unmanaged, unregistered, registered, initialized) / relabel / resize / taint / late provider id / delete / remove Nodes; create / bind / re-create under the same name on another node or still unbound / complete / terminate / remove / annotate (deletion cost) pods incl. daemon pods, host ports, anti-affinity; explicit MarkForDeletion / Unmark; each mutation enqueues a reconcile key and 'deliver' ops deliver ANY pending key (out of order, duplicates kept) to the real informer controllers; at 'quiesce' ops and at the end every key is delivered until no requeue; " +
 		"oracle (differential): a second state.Cluster is built from the same API objects in canonical order (NodeClaims, Nodes, Pods) with the same explicit marks, and compared through exported accessors per provider id (node / claim identity, labels, taints, capacity, allocatable, pod requests / limits, daemon requests / limits, host ports, volumes, marks, initialized / registered / managed, disruption cost) and per pool (resources, node counts); " +
 		"non-trivial = some key was delivered out of FIFO order",
 	Assumptions: []string{"the fresh cluster is produced by the same code in canonical order (differential oracle): an error that is order-independent is not detected here"},
